@@ -146,11 +146,12 @@ Fixpoint nt_run_restarting (f : ntimed) (ops : list nop) : list Z :=
    the magnitudes involved.  Below 2^62 ns of one-way difference ntp.ClockOffset
    neither saturates nor wraps.  Beyond (the wild range: Time.Sub saturates at
    +-292 years, ntp.ClockOffset wraps) the reference is the offset over the
-   integers, -(lo + hi) / 2 of the (saturated) one-way differences.  One corner
-   is excepted and named: when lo + hi >= 2^64 - 2^14 (both differences within
-   8 us of +292 years) mid * 1e9 may round to 2^63, int64() of it is -2^63 (amd64)
-   and Inv of that is MaxInt64: the filter then reports +292 years for an
-   offset of -292 years. *)
+   integers, -(lo + hi) / 2 of the (saturated) one-way differences.  The oracle
+   judges every sample strictly.  (Finding ntimed-corner-wrong-sign: when
+   lo + hi >= 2^64 - 2^14, both differences within 8 us of +292 years, mid * 1e9
+   may round to 2^63, int64() of it is -2^63 (amd64) and Inv of that is MaxInt64:
+   the filter then reports +292 years for an offset of -292 years, and the oracle
+   rejects it.) *)
 Definition raw_tol (s : sample) : Z := 2 + (Z.abs (lo_ns s) + Z.abs (hi_ns s)) / 2^50.
 Definition wide_offset (s : sample) : Z := Z.quot (- (lo_ns s + hi_ns s)) 2.
 Definition raw_close_to (x tol obs : Z) : bool :=
@@ -159,8 +160,10 @@ Definition raw_close_to (x tol obs : Z) : bool :=
   && (if x <? - tol then obs <? 0 else true).
 Definition raw_close (s : sample) (obs : Z) : bool :=
   if (Z.abs (lo_ns s) <? 2^62) && (Z.abs (hi_ns s) <? 2^62) then raw_close_to (raw_offset s) (raw_tol s) obs
-  else if lo_ns s + hi_ns s <? 2^64 - 2^14 then raw_close_to (wide_offset s) (raw_tol s) obs
-  else raw_close_to (wide_offset s) (raw_tol s) obs || (obs =? max_i64).
+  else raw_close_to (wide_offset s) (raw_tol s) obs.
+
+(* the corner in which the float product can reach 2^63 *)
+Definition in_corner (s : sample) : bool := 2^64 - 2^14 <=? lo_ns s + hi_ns s.
 
 (* per Do: young (at most the third sample since the last reset point) or within
    the learned bounds (neither limit violated) => the output is the raw offset *)
